@@ -179,13 +179,23 @@ def make_transport_class():
 
 
 _MT = None
+_PT = None
+PIPE_LIKE = False      # set by a harness: the next Conn gets a transport WITHOUT abortConnection()
 
 
 def MemTransport(*a, **kw):
-    global _MT
+    """PIPE_LIKE: like twisted.internet.stdio.StandardIO or a subprocess transport, the transport has
+    loseConnection() only (hasattr(transport, 'abortConnection') is False)"""
+    global _MT, _PT
     if _MT is None:
         _MT = make_transport_class()
-    return _MT(*a, **kw)
+
+        class PipeLike(_MT):
+            @property
+            def abortConnection(self):
+                raise AttributeError("abortConnection")
+        _PT = PipeLike
+    return (_PT if PIPE_LIKE else _MT)(*a, **kw)
 
 
 class Conn:
